@@ -35,6 +35,12 @@ CHECKS["C10"] = dict(
   note="Trusted: symgo executor, z3; deadlines expire after at most 3 polls (time model). Bounds: N = 3..18 bytes after the token (quick) / up to 24 (thorough), <=4 format fields, <=3 transport chunks. Outside: inputs that need more bytes to reach a crash, value-level decoding (GoValue) of row data (C04/C05), peak heap as measured by the runtime, stack depth. Known finding F-C10-bytes-prealloc (PacketQueue.Bytes allocates a wire-declared 32-bit length before checking availability) is reported as KNOWN-FINDING; any allocation violation at another call site is a new violation.",
   ref="DESIGN.md §4 C10")
 
+CHECKS["C03"] = dict(
+  technique="symbolic execution of go/ssa with SMT (z3): inductive step over request/response rounds from an arbitrary inter-round channel state; response grammar, DONE status words, callback outcome symbolic",
+  text="Bounded symbolic model checking of the real Channel.WritePacket/tryParsePackage/NextPackage/NextPackageUntil/isDoneFinal. One round starts from the state any earlier history can leave behind (queues empty, lastPkgRx nil / a DONE with any non-final 16-bit status / another package), receives a response drawn from item* lastDONE? (items: RETURNSTATUS, DONE with MORE and arbitrary other bits, EED info/non-info, ENVCHANGE; last DONE with any status without MORE, or absent) in one or two packets, and is read up to the final DONE; a marker response follows. The solver decides: packages in order with the sent values, exactly one DONE with status exactly FINAL (synthesised iff the server's last DONE is absent or carries other bits), nothing left, the next read belongs to the next response; after a failing callback (symbolic position, io.EOF or other error) and with a nil callback the rest is consumed. Three rounds from a fresh channel witness the inter-round invariant.",
+  note="Trusted: symgo executor (buffered channel/select model), z3. Bounds: <=2 items (quick) / 3 (thorough) per response, one cut (4 sampled positions quick, 0..12 thorough), 2 rounds inductive + 3-round history. Outside: intermediate DONEs without MORE, zero-length responses (header-only packets, see C02), consumer truly concurrent with the reader (C13).",
+  ref="DESIGN.md §4 C03")
+
 NOT_APPLICABLE = {
 }
 
